@@ -81,7 +81,11 @@ class IncludeNode(Node):
             )
         except TemplateNotFoundError as err:
             err.token = self.name.token
-            err.template_name = context.template.full_name()
+            # The enclosing Template.render_with_context (or the block that
+            # defines this node) knows which template this tag belongs to;
+            # context.template is the entry template while a base template or
+            # an overriding block is being rendered.
+            err.template_name = None
             raise
 
         namespace: dict[str, object] = dict(arg.evaluate(context) for arg in self.args)
@@ -124,7 +128,11 @@ class IncludeNode(Node):
             )
         except TemplateNotFoundError as err:
             err.token = self.name.token
-            err.template_name = context.template.full_name()
+            # The enclosing Template.render_with_context (or the block that
+            # defines this node) knows which template this tag belongs to;
+            # context.template is the entry template while a base template or
+            # an overriding block is being rendered.
+            err.template_name = None
             raise
 
         namespace: dict[str, object] = dict(
